@@ -89,6 +89,7 @@ type pkgCtx struct {
 	fname   map[*types.Func]string // Gallina name of a translated (or to be translated) function
 	done    map[*types.Func]bool   // translated successfully
 	fuelFn  map[*types.Func]bool   // takes a fuel parameter
+	orcFn   map[*types.Func]bool   // takes the strconv.AppendFloat oracle
 	skipped map[*types.Func]string
 	globals map[*types.Var]string // package variables set by init(): Gallina name
 }
@@ -129,7 +130,7 @@ func translateUnit(repo string, u unit) (g genOut, err error) {
 		return g, fmt.Errorf("type check failed")
 	}
 	p := &pkgCtx{fset: fset, info: info, pkg: pkg, funcs: map[*types.Func]*ast.FuncDecl{}, fname: map[*types.Func]string{},
-		done: map[*types.Func]bool{}, fuelFn: map[*types.Func]bool{}, skipped: map[*types.Func]string{}, globals: map[*types.Var]string{}}
+		done: map[*types.Func]bool{}, fuelFn: map[*types.Func]bool{}, orcFn: map[*types.Func]bool{}, skipped: map[*types.Func]string{}, globals: map[*types.Var]string{}}
 	want := map[string]bool{}
 	for _, f := range u.files {
 		want[f] = true
@@ -477,6 +478,7 @@ type fnCtx struct {
 	nk       int
 	ntmp     int
 	needFuel bool
+	needOrc  bool
 	pre      []func(string) string // pending wrappers (guards, binds) of the statement being translated
 	cond     []string              // enclosing short-circuit conditions (guards become implications)
 	locals   map[types.Object]bool // objects treated as local variables (params, locals, init's globals)
@@ -583,15 +585,19 @@ func (p *pkgCtx) translateFunc(obj *types.Func) (txt string, nloops int, err err
 	body := f.block(fd.Body.List, ex)
 	var b strings.Builder
 	for _, l := range f.loops {
-		b.WriteString(l)
+		b.WriteString(f.orcFill(l))
 		b.WriteString("\n")
 	}
 	fuelParam := ""
+	if f.needOrc {
+		fuelParam = " (fo : float_oracle)"
+		p.orcFn[obj] = true
+	}
 	if f.needFuel {
-		fuelParam = " (fuel : nat)"
+		fuelParam += " (fuel : nat)"
 		p.fuelFn[obj] = true
 	}
-	fmt.Fprintf(&b, "Definition %s%s %s : res %s :=\n%s.\n", f.fname, fuelParam, strings.Join(params, " "), f.resType, indent(body, 1))
+	fmt.Fprintf(&b, "Definition %s%s %s : res %s :=\n%s.\n", f.fname, fuelParam, strings.Join(params, " "), f.resType, indent(f.orcFill(body), 1))
 	return b.String(), f.nloop, nil
 }
 
@@ -648,10 +654,11 @@ func (p *pkgCtx) translateInit(fd *ast.FuncDecl) (txt string, err error) {
 	body := f.block(fd.Body.List, ex)
 	var b strings.Builder
 	for _, l := range f.loops {
-		b.WriteString(l + "\n")
+		b.WriteString(f.orcFill(l) + "\n")
 	}
-	if f.needFuel {
-		fail("init needs explicit fuel")
+	body = f.orcFill(body)
+	if f.needFuel || f.needOrc {
+		fail("init needs explicit fuel or an oracle")
 	}
 	fmt.Fprintf(&b, "Definition init_ : res %s :=\n%s\n%s.\n", f.resType, indent(strings.Join(inits, "\n"), 1), indent(body, 1))
 	for i, v := range gl {
@@ -719,6 +726,14 @@ func matchingParen(s string) bool {
 
 // ---------------------------------------------------------------------------------------------------------
 // statements
+
+// loops are emitted before it is known whether the function needs the float oracle: placeholders are filled at the end
+func (f *fnCtx) orcFill(s string) string {
+	if f.needOrc {
+		return strings.ReplaceAll(strings.ReplaceAll(s, "(*ORC*)", "(fo : float_oracle) "), "(*ORCA*)", " fo")
+	}
+	return strings.ReplaceAll(strings.ReplaceAll(s, "(*ORC*)", ""), "(*ORCA*)", "")
+}
 
 func (f *fnCtx) wrapPre(code string) string {
 	for i := len(f.pre) - 1; i >= 0; i-- {
@@ -1379,7 +1394,7 @@ func (f *fnCtx) forStmt(s *ast.ForStmt, rest []ast.Stmt, ex exits) string {
 	// the loop body
 	savedPre := f.pre
 	f.pre = nil
-	rec := fmt.Sprintf("%s fuel %s", name, strings.Join(args, " "))
+	rec := fmt.Sprintf("%s(*ORCA*) fuel %s", name, strings.Join(args, " "))
 	exit := "Ok (LExit " + tupleOf(modArgs) + ")"
 	inner := exits{inLoop: true, ret: func(v string) string { return "Ok (LRet " + paren(v) + ")" }, brk: func() string { return exit }}
 	step := func() string {
@@ -1402,9 +1417,9 @@ func (f *fnCtx) forStmt(s *ast.ForStmt, rest []ast.Stmt, ex exits) string {
 		body = f.block(s.Body.List, inner)
 	}
 	f.pre = savedPre
-	f.loops = append(f.loops, fmt.Sprintf("Fixpoint %s (fuel : nat) %s {struct fuel} : res (lres %s %s) :=\n  match fuel with\n  | O => Fuel\n  | S fuel =>\n%s\n  end.\n",
+	f.loops = append(f.loops, fmt.Sprintf("Fixpoint %s (*ORC*)(fuel : nat) %s {struct fuel} : res (lres %s %s) :=\n  match fuel with\n  | O => Fuel\n  | S fuel =>\n%s\n  end.\n",
 		name, params, f.resType, mty, indent(body, 2)))
-	call := fmt.Sprintf("%s %s %s", name, paren(fuel), strings.Join(args, " "))
+	call := fmt.Sprintf("%s(*ORCA*) %s %s", name, paren(fuel), strings.Join(args, " "))
 	return f.afterLoop(call, mpat, rest, ex)
 }
 
@@ -1495,15 +1510,15 @@ func (f *fnCtx) rangeBody(s *ast.RangeStmt, rvar string, elem types.Type, rest [
 		keyNext = fmt.Sprintf("(%s + 1) ", keyName)
 		keyArg = "0 "
 	}
-	rec := fmt.Sprintf("%s %s %s%s", name, "rest_", keyNext, strings.Join(args, " "))
+	rec := fmt.Sprintf("%s(*ORCA*) %s %s%s", name, "rest_", keyNext, strings.Join(args, " "))
 	exit := "Ok (LExit " + tupleOf(modArgs) + ")"
 	inner := exits{inLoop: true, ret: func(v string) string { return "Ok (LRet " + paren(v) + ")" }, brk: func() string { return exit },
 		next: func() string { return rec }, cont: func() string { return rec }}
 	body := f.block(s.Body.List, inner)
 	f.pre = savedPre
-	f.loops = append(f.loops, fmt.Sprintf("Fixpoint %s (rng_ : list %s) %s%s {struct rng_} : res (lres %s %s) :=\n  match rng_ with\n  | [] => %s\n  | %s :: rest_ =>\n%s\n  end.\n",
+	f.loops = append(f.loops, fmt.Sprintf("Fixpoint %s (*ORC*)(rng_ : list %s) %s%s {struct rng_} : res (lres %s %s) :=\n  match rng_ with\n  | [] => %s\n  | %s :: rest_ =>\n%s\n  end.\n",
 		name, coqType(elem), keyParam, params, f.resType, mty, exit, valName, indent(body, 2)))
-	call := fmt.Sprintf("%s %s %s%s", name, rvar, keyArg, strings.Join(args, " "))
+	call := fmt.Sprintf("%s(*ORCA*) %s %s%s", name, rvar, keyArg, strings.Join(args, " "))
 	return f.afterLoop(call, mpat, rest, ex)
 }
 
@@ -1708,6 +1723,7 @@ func (f *fnCtx) compare(op token.Token, x, y string, t types.Type) string {
 		}
 		r = fmt.Sprintf("Bool.eqb %s %s", x, y)
 	} else if _, ok := isFloat(t); ok {
+		f.addCheck("unsup_unless", fmt.Sprintf("fl_same_width %s %s", x, y))
 		switch op {
 		case token.EQL:
 			r = fmt.Sprintf("fl_eq %s %s", x, y)
@@ -1902,6 +1918,10 @@ func (f *fnCtx) expr(e ast.Expr) string {
 
 func (f *fnCtx) callTranslated(fn *types.Func, call *ast.CallExpr) string {
 	var args []string
+	if f.p.orcFn[fn] {
+		f.needOrc = true
+		args = append(args, "fo")
+	}
 	if f.p.fuelFn[fn] {
 		f.needFuel = true
 		args = append(args, "fuel")
@@ -2049,6 +2069,9 @@ func (f *fnCtx) extern(fn *types.Func, e *ast.CallExpr) string {
 		return fmt.Sprintf("strconv_AppendUint %s %s", arg(0), arg(1))
 	case "strconv.AppendBool":
 		return fmt.Sprintf("strconv_AppendBool %s %s", arg(0), arg(1))
+	case "strconv.AppendFloat":
+		f.needOrc = true
+		return fmt.Sprintf("strconv_AppendFloat fo %s %s %s %s %s", arg(0), arg(1), arg(2), arg(3), arg(4))
 	case "unicode/utf8.DecodeRuneInString", "unicode/utf8.DecodeRune":
 		return "utf8_DecodeRune " + arg(0)
 	case "math.IsNaN":
